@@ -1,0 +1,8 @@
+//go:build verif
+
+package diags
+
+// VerifReadRange exposes readRange.
+func VerifReadRange(firstColumn, lastColumn int, prs PositionRanges) PositionRanges {
+	return readRange(firstColumn, lastColumn, prs)
+}
